@@ -10,7 +10,6 @@ import multiprocessing as mp
 import os
 import sys
 import time
-from concurrent.futures import ProcessPoolExecutor, as_completed
 
 VERIF = os.path.dirname(os.path.dirname(os.path.abspath(__file__)))
 REPLAY_DIR = os.path.join(VERIF, "replays")
@@ -97,30 +96,81 @@ def write_evidence(prop, ev):
     return path
 
 
-def _worker_entry(fn, job, hang_s):
+def tmp_root():
+    """Scratch space outside /repo and /verif (removed by whoever creates something in it)."""
+    import tempfile
+
+    for d in (os.environ.get("VERIF_TMP"), "/var/tmp"):
+        if d and os.path.isdir(d) and os.access(d, os.W_OK):
+            return d
+    return tempfile.gettempdir()
+
+
+def _worker_entry(fn, job, hang_s, out_path):
+    import pickle
+
     faulthandler.enable()
     faulthandler.dump_traceback_later(hang_s, exit=True)
     try:
-        return fn(job)
+        res = fn(job)
+        with open(out_path + ".tmp", "wb") as f:
+            pickle.dump(res, f)
+        os.replace(out_path + ".tmp", out_path)
     finally:
         faulthandler.cancel_dump_traceback_later()
+    sys.stdout.flush()
+    os._exit(0)
 
 
 def run_jobs(fn, jobs, nproc=16, hang_s=900, spawn=False):
-    """Run jobs in forked (or spawned) processes.  Returns (results, harness_errors).
+    """Run every job in its own forked process (at most ``nproc`` at a time).
 
-    A dead / hung worker fails its job (harness error) instead of hanging the batch."""
+    Returns (results, harness_errors).  A worker that dies (segfault, hang watchdog) fails only
+    its own job -- reported as a harness error -- and never the batch."""
+    import pickle
+    import shutil
+    import tempfile
+
     ctx = mp.get_context("spawn" if spawn else "fork")
+    tmp = tempfile.mkdtemp(prefix="hdcsim_jobs_", dir=tmp_root())
     results = []
     errors = []
-    with ProcessPoolExecutor(max_workers=nproc, mp_context=ctx) as pool:
-        futs = {pool.submit(_worker_entry, fn, job, hang_s): job for job in jobs}
-        for fut in as_completed(futs):
-            job = futs[fut]
-            try:
-                results.append(fut.result())
-            except BaseException as e:  # noqa: BLE001
-                errors.append(f"job {job.get('name', job)!r}: {type(e).__name__}: {e}")
+    pending = list(enumerate(jobs))
+    running = []
+    try:
+        while pending or running:
+            while pending and len(running) < nproc:
+                idx, job = pending.pop(0)
+                out = os.path.join(tmp, f"job{idx}.pkl")
+                pr = ctx.Process(target=_worker_entry, args=(fn, job, hang_s, out))
+                pr.start()
+                running.append((pr, job, out, time.monotonic()))
+            time.sleep(0.05)
+            still = []
+            for pr, job, out, ts in running:
+                if pr.is_alive():
+                    if time.monotonic() - ts > hang_s + 60:
+                        pr.kill()
+                        pr.join()
+                        errors.append(f"job {job.get('name', job)!r}: exceeded {hang_s}s, killed")
+                    else:
+                        still.append((pr, job, out, ts))
+                    continue
+                pr.join()
+                if os.path.exists(out):
+                    try:
+                        with open(out, "rb") as f:
+                            results.append(pickle.load(f))
+                    except Exception as e:  # noqa: BLE001
+                        errors.append(f"job {job.get('name', job)!r}: unreadable result: {e}")
+                else:
+                    errors.append(f"job {job.get('name', job)!r}: worker process died (exit code {pr.exitcode}) before reporting")
+            running = still
+    finally:
+        for pr, *_ in running:
+            if pr.is_alive():
+                pr.kill()
+        shutil.rmtree(tmp, ignore_errors=True)
     return results, errors
 
 
